@@ -65,6 +65,11 @@ def h_roundtrip(ctx, n, twin=False):
     ctx.holds("unpack of a bytearray: view then pack reproduces the octets", e is None and sym_and(
         u2.to_space_packet().pack() == raw, u2.pack() == raw, u2 == t), exc_name(e))
     pack_hands_out_fresh_buffers(ctx, t.pack, refb)
+    o1 = bytes(PusTc(255, 255, 0x7FF, b"\xaa" * 7, 0x3FFF, 0xFFFF, 0).pack())
+    o2 = bytes(PusTc(0, 0, 0, b"").pack())
+    earlier_result_survives(ctx, lambda: sym_and(u == t, u.service == svc, u.apid == apid, u.seq_count == sc, u.source_id == src,
+                                                 u.app_data == data, u.pack() == raw),
+                            [lambda: PusTc.unpack(o1), lambda: PusTc.unpack(o2), lambda: t.to_space_packet()])
     if twin:
         ctx.holds("twin", raw != refb)
 
